@@ -250,6 +250,102 @@ fn run_nd<T: Fl>(c: &NCase, lx: &mut Local) {
     });
 }
 
+#[derive(Debug, Clone)]
+struct XCase {
+    n: usize,
+    kind: u8,
+    ty: u8,
+}
+
+/// long vectors (size thresholds), tiny positive entries, zeros of q that are not last, and
+/// operands that are views into one buffer
+fn run_extra<T: Fl>(c: &XCase, lx: &mut Local) {
+    let n = c.n;
+    let tiny = if T::NAME == "f32" { 1e-10 } else { 1e-20 };
+    let tiny2 = if T::NAME == "f32" { 1e-30 } else { 1e-300 };
+    match c.kind {
+        0 | 1 | 2 => {
+            let p: Vec<T> = (0..n)
+                .map(|i| {
+                    T::of(match c.kind {
+                        0 => ((i * 7 + 3) % 11) as f64 / 16.0,             // ordinary, with zeros
+                        1 => if i % 3 == 0 { tiny } else if i % 3 == 1 { tiny2 } else { 0.25 }, // tiny positive entries
+                        _ => 1.0 / 8.0 + (i % 5) as f64 / 32.0,
+                    })
+                })
+                .collect();
+            let q: Vec<T> = (0..n)
+                .map(|i| {
+                    T::of(match c.kind {
+                        0 => ((i * 5 + 1) % 13) as f64 / 16.0 + 0.03125,
+                        1 => if i % 4 == 1 { tiny } else { 0.5 },
+                        // a zero of q opposite a positive p at the FIRST position (and nowhere else)
+                        _ => if i == 0 { 0.0 } else { 0.25 + (i % 3) as f64 / 8.0 },
+                    })
+                })
+                .collect();
+            lx.single(|lx| {
+                let st = [1isize, -1, 2][(n + c.kind as usize) % 3];
+                let hp = Host1::new(&p, st, 1, T::of(0.33));
+                let hq = Host1::new(&q, -st, 1, T::of(0.77));
+                let ctx = || format!("vectors of {} elements (kind {}); p starts {:?}, q starts {:?}", n, c.kind, &p[..n.min(4)], &q[..n.min(4)]);
+                let mut obs = Vec::new();
+                if let Ok(Ok(g)) = guarded(|| hp.view().entropy()) {
+                    check(Kind::Entropy, g, &expect::<T>(Kind::Entropy, &p, &p), &ctx, lx);
+                    obs.push(g.bits_());
+                } else {
+                    lx.fail("C10/failed", || format!("entropy failed; {}", ctx()));
+                }
+                match (guarded(|| hp.view().cross_entropy(&hq.view())), guarded(|| hp.view().kl_divergence(&hq.view()))) {
+                    (Ok(Ok(gc)), Ok(Ok(gk))) => {
+                        check(Kind::Cross, gc, &expect::<T>(Kind::Cross, &p, &q), &ctx, lx);
+                        check(Kind::Kl, gk, &expect::<T>(Kind::Kl, &p, &q), &ctx, lx);
+                        obs.push(gc.bits_());
+                    }
+                    _ => lx.fail("C10/failed", || format!("cross_entropy / kl_divergence failed; {}", ctx())),
+                }
+                hash_of(&obs)
+            });
+        }
+        _ => {
+            // aliasing: p = buf[..m], q = buf[..2m-1;2] (same first element, same shape, different stride);
+            // a square matrix against its transpose; p against itself
+            let m = n.max(2);
+            let buf: Vec<T> = (0..2 * m).map(|i| T::of(((i * 3 + 1) % 7) as f64 / 8.0 + if i % 5 == 0 { 0.0 } else { 0.0625 })).collect();
+            let arr = ndarray::Array1::from(buf.clone());
+            lx.single(|lx| {
+                let pv = arr.slice(ndarray::s![..m]);
+                let qv = arr.slice(ndarray::s![..2 * m - 1;2]);
+                let (p, q): (Vec<T>, Vec<T>) = (pv.to_vec(), qv.to_vec());
+                let ctx = || format!("p = buf[..{}], q = buf[..{};2] of one buffer {:?}", m, 2 * m - 1, buf);
+                match (guarded(|| pv.cross_entropy(&qv)), guarded(|| pv.kl_divergence(&qv))) {
+                    (Ok(Ok(gc)), Ok(Ok(gk))) => {
+                        check(Kind::Cross, gc, &expect::<T>(Kind::Cross, &p, &q), &ctx, lx);
+                        check(Kind::Kl, gk, &expect::<T>(Kind::Kl, &p, &q), &ctx, lx);
+                    }
+                    _ => lx.fail("C10/failed", || format!("aliasing operands failed; {}", ctx())),
+                }
+                let k = (2 * m) as f64;
+                let side = (k.sqrt()) as usize;
+                if side >= 2 {
+                    let sq = ndarray::Array2::from_shape_vec((side, side), buf[..side * side].to_vec()).unwrap();
+                    let (a, b) = (sq.view(), sq.t());
+                    let (p, q): (Vec<T>, Vec<T>) = (a.iter().cloned().collect(), b.iter().cloned().collect());
+                    let ctx = || format!("a {}x{} matrix against its own transpose: {:?}", side, side, p);
+                    match (guarded(|| a.cross_entropy(&b)), guarded(|| a.kl_divergence(&b))) {
+                        (Ok(Ok(gc)), Ok(Ok(gk))) => {
+                            check(Kind::Cross, gc, &expect::<T>(Kind::Cross, &p, &q), &ctx, lx);
+                            check(Kind::Kl, gk, &expect::<T>(Kind::Kl, &p, &q), &ctx, lx);
+                        }
+                        _ => lx.fail("C10/failed", || format!("transpose operands failed; {}", ctx())),
+                    }
+                }
+                0
+            });
+        }
+    }
+}
+
 fn main() {
     let mut rep = Report::new("C10");
     rep.rule = "case = (p over the alphabet {0,.1,.25,.5,1,2,NaN} or normalised vector in eighths, element type) with q candidates x stride pairs inside; n-D: (shape, layout of p, layout of q, fill); non-trivial = length >= 2".into();
@@ -283,6 +379,21 @@ fn main() {
                 run::<f64>(c, lx)
             } else {
                 run::<f32>(c, lx)
+            }
+        },
+    );
+    let smax = rep.cfg.pick(1100, 4100);
+    let xcases = nsmc::patterns::sizes(40, smax).into_iter().filter(|&n| n >= 1).flat_map(|n| (0..4u8).flat_map(move |kind| (0..2u8).map(move |ty| XCase { n, kind, ty }))).filter(|c| c.kind < 3 || c.n <= 64);
+    rep.run_sub(
+        "size-sweep-tiny-values-aliasing",
+        &format!("every length 1..=40 and block threshold neighbourhoods up to {} x {{ordinary values with zeros; tiny positive entries 1e-20 / 1e-300 (f32: 1e-10 / 1e-30); a zero of q opposite a positive p at the first position only; p and q as views into ONE buffer (same start, different stride; a matrix against its transpose)}} x f64/f32", smax),
+        xcases,
+        |c, lx| {
+            lx.nontrivial(c.n >= 2);
+            if c.ty == 0 {
+                run_extra::<f64>(c, lx)
+            } else {
+                run_extra::<f32>(c, lx)
             }
         },
     );
